@@ -234,9 +234,15 @@ int URI_FUNC(ComposeQueryEngine)(URI_CHAR * dest,
 		valueRequiredChars = worstCase * (int)valueLen;
 
 		if (dest == NULL) {
-			(*charsRequired) += ampersandLen + keyRequiredChars + ((value == NULL)
-						? 0
-						: 1 + valueRequiredChars);
+			/* NOTE: Each of the two products fits an int, their sum may not */
+			const int itemRequiredChars = ampersandLen + ((value == NULL) ? 0 : 1);
+			if ((keyRequiredChars > INT_MAX - itemRequiredChars - (*charsRequired))
+					|| (valueRequiredChars > INT_MAX - itemRequiredChars
+						- (*charsRequired) - keyRequiredChars)) {
+				return URI_ERROR_OUTPUT_TOO_LARGE;
+			}
+			(*charsRequired) += itemRequiredChars + keyRequiredChars
+					+ ((value == NULL) ? 0 : valueRequiredChars);
 
 			if (firstItem == URI_TRUE) {
 				ampersandLen = 1;
